@@ -29,7 +29,7 @@ def mk_rr(structs, tag, owner_labels, rdlen, sym_bytes=2):
                  rdata=Adt("RData", "Other", [Seq(rd)])), ty
 
 
-def mk_msg(e, structs, shape, with_edns, qlabels=(3,)):
+def mk_msg(e, structs, shape, with_edns, qlabels=(3,), sym_flags=False):
     """shape: ((rdlen,...answers), (authority...), (additional...)); owners are the root name"""
     types = []
     secs = []
@@ -42,7 +42,7 @@ def mk_msg(e, structs, shape, with_edns, qlabels=(3,)):
         secs.append(Seq(rrs))
     for ty in types:
         e.assume(z3.And(ty != 41, ty != 6, ty != 2, ty != 5, ty != 12, ty != 15, ty != 17, ty != 18, ty != 21, ty != 35))
-    b = lambda n: Bool(z3.Bool(n))  # noqa
+    b = (lambda n: Bool(z3.Bool(n))) if sym_flags else (lambda n: Bool(n in ("qr", "ra")))  # noqa
     rcode = z3.BitVec("rcode", 16)
     e.assume(z3.ULE(rcode, 0xFFF))
     opcode = z3.BitVec("opcode", 8)
@@ -62,13 +62,13 @@ def be16(out, i):
     return z3.Concat(out[i].t, out[i + 1].t)
 
 
-def size_obligation(prog, enums, structs, shape, with_edns):
+def size_obligation(prog, enums, structs, shape, with_edns, sym_flags=False):
     fn = find(prog, "serialise_with_size", 2, "dnspkt")
     ex = Exec(prog, S, enums, max_unroll=16)
     qlabels = (3,)
 
     def run(e):
-        pkt = mk_msg(e, structs, shape, with_edns, qlabels)
+        pkt = mk_msg(e, structs, shape, with_edns, qlabels, sym_flags)
         size = z3.BitVec("size", 64)
         e.assume(z3.And(z3.UGE(size, 512), z3.ULE(size, 65535)))
         e.env["size"] = size
@@ -175,7 +175,7 @@ def dom_terms(dom):
     return [[b.t for b in lab.fields[0].items] for lab in dom.fields[0].items]
 
 
-def mk_named_msg(e, structs, layout, with_edns):
+def mk_named_msg(e, structs, layout, with_edns, sym_flags=False):
     """layout: (question labels, [(section, owner labels, rdlen)]) where labels are tuples of (tag, length): equal tags share the
     same symbolic octets (forcing compression), different tags are independent"""
     pool = {}
@@ -190,13 +190,13 @@ def mk_named_msg(e, structs, layout, with_edns):
     for i, (sec, owner, rdlen) in enumerate(recs):
         ty = z3.BitVec(f"r{i}_type", 16)
         types.append(ty)
-        rd = [BV(z3.BitVec(f"r{i}_rd{j}", 8)) for j in range(rdlen)]
+        rd = [BV(z3.BitVec(f"r{i}_rd{j}", 8)) if (rdlen <= 64 or j < 2) else BV(z3.BitVecVal((j * 7 + 1) & 255, 8)) for j in range(rdlen)]
         secs[sec].append(build(structs, "RR", domain=Adt("Domain", None, [Seq([lab(t, n) for t, n in owner])]),
                                **{"class": Adt("Class", None, [BV(z3.BitVec(f"r{i}_class", 16))])},
                                rrtype=Adt("Type", None, [BV(ty)]), ttl=BV(z3.BitVec(f"r{i}_ttl", 32)), rdata=Adt("RData", "Other", [Seq(rd)])))
     for ty in types:
         e.assume(z3.And(ty != 41, ty != 6, ty != 2, ty != 5, ty != 12, ty != 15, ty != 17, ty != 18, ty != 21, ty != 35))
-    b = lambda n: Bool(z3.Bool(n))  # noqa
+    b = (lambda n: Bool(z3.Bool(n))) if sym_flags else (lambda n: Bool(n in ("qr", "ra")))  # noqa
     rcode = z3.BitVec("rcode", 16)
     e.assume(z3.ULE(rcode, 0xFFF if with_edns else 0xF))
     opcode = z3.BitVec("opcode", 8)
@@ -214,7 +214,7 @@ def mk_named_msg(e, structs, layout, with_edns):
                  edns=some(Adt("EdnsData", None, [Seq([])])) if with_edns else NONE())
 
 
-def roundtrip_obligation(prog, enums, structs, layout, with_edns):
+def roundtrip_obligation(prog, enums, structs, layout, with_edns, sym_flags=False):
     ser = find(prog, "serialise", 1, "dnspkt")
     newp = [f for f in prog.find("new", 1) if "parse.rs:82" in f.name]
     getd = find(prog, "get_dns", 1, "parse")
@@ -223,7 +223,7 @@ def roundtrip_obligation(prog, enums, structs, layout, with_edns):
     ex = Exec(prog, S, enums, max_unroll=24)
 
     def run(e):
-        pkt = mk_named_msg(e, structs, layout, with_edns)
+        pkt = mk_named_msg(e, structs, layout, with_edns, sym_flags)
         e.env["pkt"] = pkt
         out = e.call_fn(ser, [Ref(Cell(pkt))])
         e.env["out"] = out
@@ -292,4 +292,85 @@ def roundtrip_obligation(prog, enums, structs, layout, with_edns):
                 failed.append(dict(check="", description=name, location="dns/dnspkt.rs serialise + dns/parse.rs get_dns", kind="violation",
                                    counterexample=dict(layout=str(layout), with_edns=with_edns, outcome=outcome if outcome == "panic" else val.variant,
                                                        detail=(str(val)[:200] if outcome == "panic" else ""))))
+    return failed, ex, len(paths), kinds
+
+
+# ---------------------------------------------------------------------------------------------------------------- decode -> encode (C05)
+def skeleton(kind):
+    """message skeletons: structure octets concrete (lengths, counts, pointers), contents symbolic. -> list of z3 bytes"""
+    n = [0]
+
+    def sym(tag):
+        n[0] += 1
+        return z3.BitVec(f"{tag}{n[0]}", 8)
+
+    def c(v):
+        return z3.BitVecVal(v, 8)
+    hdr = lambda an, ns, ar: [sym("id"), sym("id"), sym("f1"), sym("f2"), c(0), c(1), c(0), c(an), c(0), c(ns), c(0), c(ar)]  # noqa
+    q = [c(1), sym("q"), c(2), sym("q"), sym("q"), c(0), sym("qt"), sym("qt"), sym("qc"), sym("qc")]
+    opt = lambda rdata: [c(0), c(0), c(41), sym("cls"), sym("cls"), sym("xrc"), sym("ver"), sym("z"), sym("z"), c(0), c(len(rdata))] + rdata  # noqa
+    if kind == "plain":
+        return hdr(0, 0, 0) + q
+    if kind == "opt":
+        return hdr(0, 0, 1) + q + opt([])
+    if kind.startswith("cookie"):
+        L = int(kind[6:])
+        return hdr(0, 0, 1) + q + opt([c(0), c(10), c(0), c(L)] + [sym("ck") for _ in range(L)])
+    if kind == "ede1":
+        return hdr(0, 0, 1) + q + opt([c(0), c(15), c(0), c(1), sym("e")])
+    if kind == "answer_ptr":
+        rr = [c(0xC0), c(12), c(0), c(1), c(0), c(1), sym("l"), sym("l"), sym("l"), sym("l"), c(0), c(4), sym("r"), sym("r"), sym("r"), sym("r")]
+        return hdr(1, 0, 0) + q + rr
+    if kind == "ptr_self":
+        rr = [c(0xC0), c(22), c(0), c(1), c(0), c(1), sym("l"), sym("l"), sym("l"), sym("l"), c(0), c(0)]
+        return hdr(1, 0, 0) + q + rr
+    if kind == "ptr_past_end":
+        rr = [c(0xFF), c(0xFF), c(0), c(1), c(0), c(1), sym("l"), sym("l"), sym("l"), sym("l"), c(0), c(0)]
+        return hdr(1, 0, 0) + q + rr
+    if kind == "count_lies":
+        return hdr(3, 2, 1) + q
+    raise ValueError(kind)
+
+
+def decode_encode_obligation(prog, enums, structs, kind, cut=None):
+    """get_dns on a skeleton (optionally truncated to `cut` octets), then, if accepted, serialise the decoded message and look
+    at its EDNS options the way the request path does"""
+    ser = find(prog, "serialise", 1, "dnspkt")
+    newp = [f for f in prog.find("new", 1) if "parse.rs:82" in f.name]
+    getd = find(prog, "get_dns", 1, "parse")
+    getc = find(prog, "get_cookie", 1, "dnspkt")
+    gete = find(prog, "get_extended_dns_error", 1, "dnspkt")
+    summ = dict(S)
+    summ["String::from_utf8_lossy"] = lambda ex, c: Str(text="<lossy>")
+    summ["Cow::into_owned"] = lambda ex, c: c.args[0]
+    summ["<Cow as ToOwned>::to_owned"] = lambda ex, c: c.args[0]
+    ex = Exec(prog, summ, enums, max_unroll=40)
+
+    def run(e):
+        data = skeleton(kind)
+        if cut is not None:
+            data = data[:cut]
+        e.env["f2"] = data[3] if len(data) > 3 else None
+        parser = e.call_fn(newp[0], [Ref(Cell(Seq([BV(b) for b in data], "slice")))])
+        r = e.call_fn(getd, [Ref(Cell(parser), mut=True)])
+        e.env["parsed"] = r.variant
+        if r.variant == "Ok":
+            pkt = r.fields[0]
+            edns = field(structs, pkt, "edns")
+            if edns.variant == "Some":
+                e.call_fn(getc, [Ref(Cell(edns.fields[0]))])
+                e.call_fn(gete, [Ref(Cell(edns.fields[0]))])
+            e.call_fn(ser, [Ref(Cell(pkt))])
+        return r
+    paths = ex.explore(run)
+    failed, kinds = [], {}
+    for outcome, val, pc, env in paths:
+        k = "panic" if outcome == "panic" else val.variant
+        kinds[k] = kinds.get(k, 0) + 1
+        if outcome == "panic":
+            m = check(ex, pc, z3.BoolVal(False), "panic")
+            if m is not None:
+                failed.append(dict(check="", description="decoding a DNS message, reading its EDNS options and re-encoding it never panics: " + str(val)[:90],
+                                   location="dns/parse.rs get_dns / dns/dnspkt.rs", kind="violation",
+                                   counterexample=dict(skeleton=kind, cut=cut, parsed=env.get("parsed"), panic=str(val)[:200])))
     return failed, ex, len(paths), kinds
